@@ -277,15 +277,20 @@ Definition all_some {A} (l : list (option A)) : option (list A) :=
              (Some []) l.
 
 Definition get_routes (I : inst) (x : list Z) : result (list route) :=
-  match (let vs := vars I in all_some (map (nth_error vs) (nonzero x))) with
-  | None => Err ValueError           (* np.array of tuples and None: inhomogeneous shape *)
-  | Some [] => Err TypeError         (* np.lexsort of an empty key sequence *)
-  | Some sel =>
-      let ordered := sortV sel in
-      match routes_loop (length ordered) (ig I) ordered [] (repeat 0 (length (nodes (ig I)))) with
-      | Err e => Err e
-      | Ok (rs, vis) =>
-          if forallb (fun c => c =? 1) (tl vis) then Ok rs else Err AssertionError
+  match nonzero x with
+  | [] =>
+      (* if soln_var_indices.size == 0: assert len(self.nodes) <= 1; return [] *)
+      if Nat.leb (length (nodes (ig I))) 1 then Ok [] else Err AssertionError
+  | idxs =>
+      match (let vs := vars I in all_some (map (nth_error vs) idxs)) with
+      | None => Err ValueError       (* np.array of tuples and None: inhomogeneous shape *)
+      | Some sel =>                  (* non-empty: as many tuples as indices *)
+          let ordered := sortV sel in
+          match routes_loop (length ordered) (ig I) ordered [] (repeat 0 (length (nodes (ig I)))) with
+          | Err e => Err e
+          | Ok (rs, vis) =>
+              if forallb (fun c => c =? 1) (tl vis) then Ok rs else Err AssertionError
+          end
       end
   end.
 
